@@ -178,6 +178,19 @@ def run(shard, ctx):
                          % (kw, len(cmd.datain), v["_tl"], len(b)), dict(wit, method=method, kwargs=kw))
                 continue
             judge(ctx, f, "facade", v, b, res, dict(wit, method=method, kwargs=kw))
+            if f.name.startswith("readdiscinformation.type") and not garbage:
+                # a drive answers with another data type than the one asked for (older drives ignore the DATA TYPE bits and send
+                # standard disc information): what is decoded is what the device sent, in the layout its own type field names
+                asked = (int(f.name[-1]) + 1 + TICK[0] % 2) % 3
+                kw2 = dict(kw, data_type=asked)
+                dev2 = harness.Recorder(getattr(E, f.facade_table), fill)
+                ctx.count("disc_information_of_another_type_than_asked")
+                try:
+                    res2 = getattr(harness.make_facade(dev2), method)(**kw2).result
+                    judge(ctx, f, "facade, data type %d asked for" % asked, v, b, res2, dict(wit, method=method, kwargs=kw2))
+                except Exception as e:  # noqa: BLE001
+                    ctx.fail("C04:%s.facade_raises.%s" % (f.name, type(e).__name__), "%s: facade %s(data_type=%d) raised %s: %s" % (f.name, method, asked, type(e).__name__, e),
+                             dict(wit, method=method, kwargs=kw2), exc=e)
 
 
 TICK = [0]
